@@ -140,9 +140,23 @@ def run(ck, ctx):
     pl = m.parser_method("process_line")
     must, exposed = rbw.summarize(pl)
     init = m.parser_method("__init__")
+    # construction-only code: the constructor and the helpers that nothing but construction-only code calls
+    callers = {}
+    for g in fam:
+        for _call, callee in cg.callees(g):
+            if hasattr(callee, "id"):
+                callers.setdefault(callee.id, set()).add(g.id)
+    ctor_only = {init.id}
+    grew = True
+    while grew:
+        grew = False
+        for g in fam:
+            if g.id not in ctor_only and callers.get(g.id) and callers[g.id] <= ctor_only and not g.name.startswith(("p_", "t_")):
+                ctor_only.add(g.id)
+                grew = True
     changed_outside_init = set()
     for f in fam:
-        if f is init:
+        if f.id in ctor_only:
             continue
         for a in eff.accesses(f):
             if a.path.startswith("self.") and a.path.count(".") == 1 and a.kind in ("store", "mutate", "del"):
